@@ -120,17 +120,17 @@ def _is_criteria(st, it):
     return first is not None and ast.unparse(first) == f"{it} > 1"
 
 
-def _bodies(stmts, it, tracked):
+def _bodies(stmts, it, tracked, saved_dist=None):
     """alternative statement lists (label, effect) of a try body, in source order"""
     alts = [[]]
     for st in stmts:
         if isinstance(st, ast.With):
-            sub = _bodies(st.body, it, tracked)
+            sub = _bodies(st.body, it, tracked, saved_dist)
             alts = [a + b for a in alts for b in sub]
             continue
         if isinstance(st, ast.If) and st.orelse and "linear_solve" in _self_calls(ast.Module(body=st.body, type_ignores=[])) \
                 and "linear_solve" in _self_calls(ast.Module(body=st.orelse, type_ignores=[])):
-            sub = _bodies(st.body, it, tracked) + _bodies(st.orelse, it, tracked)
+            sub = _bodies(st.body, it, tracked, saved_dist) + _bodies(st.orelse, it, tracked, saved_dist)
             alts = [a + b for a in alts for b in sub]
             continue
         calls = _self_calls(st)
@@ -145,6 +145,9 @@ def _bodies(stmts, it, tracked):
         elif "new_distance" in roots:
             effect = "writeDist"
             label = label or "setDistance"
+        elif saved_dist is not None and saved_dist in roots:
+            # the statement that refreshes what the handler restores the distance from (`old_distance = new_distance`)
+            label, effect = "commit", "commitDist"
         elif label is None:
             src = ast.unparse(st)
             if isinstance(st, ast.If) and "isnan" in src:
@@ -160,7 +163,8 @@ def _bodies(stmts, it, tracked):
 
 def extract_code(cls):
     """AST of cls._solve -> dict(bodies, restoreSol, restoreDist, flagOnBreak, distInit, iterInit, why)"""
-    code = dict(bodies=[], restoreSol=False, restoreDist=False, flagOnBreak=False, distInit=False, iterInit=False, saveIsCopy=False, why=[])
+    code = dict(bodies=[], restoreSol=False, restoreDist=False, flagOnBreak=False, distInit=False, iterInit=False, saveIsCopy=False,
+                saveDistBeforeTry=False, post="none", why=[])
     try:
         fn = ast.parse(textwrap.dedent(inspect.getsource(cls._solve))).body[0]
     except (OSError, TypeError, SyntaxError, IndexError) as e:
@@ -185,7 +189,23 @@ def extract_code(cls):
     post_src = "\n".join(ast.unparse(x) for x in post)
     tracked = "flux" if "flux.copy()" in post_src or "= flux" in post_src else "solution_i"
     code["tracked"] = tracked
-    code["bodies"] = _bodies(tr.body, it, tracked)
+    # the name the handler restores the distance from, and where it is refreshed: at the top of every pass (before the try) or
+    # by a statement of the body (effect commitDist)
+    h_pre = {name: n for name, n in _names_assigned(handler.body)}
+    saved_dist = h_pre["new_distance"].value.id if "new_distance" in h_pre and isinstance(h_pre["new_distance"].value, ast.Name) else None
+    before_try0 = loop.body[: loop.body.index(tr)]
+    code["saveDistBeforeTry"] = saved_dist is not None and any(name == saved_dist for name, _ in _names_assigned(before_try0))
+    code["saved_dist"] = saved_dist
+    code["bodies"] = _bodies(tr.body, it, tracked, None if code["saveDistBeforeTry"] else saved_dist)
+    # what follows the loop: a linear solve inside try/except (its failure only marks the pressure), a bare one, or none
+    post_kind = "none"
+    for st in post:
+        if isinstance(st, ast.Try) and "linear_solve" in _self_calls(st):
+            marks = any("nan" in ast.unparse(h).lower() for h in st.handlers)
+            post_kind = "guarded" if marks and not any(isinstance(n, ast.Raise) for h in st.handlers for n in ast.walk(h)) else "unguarded"
+        elif not isinstance(st, ast.Try) and "linear_solve" in _self_calls(st):
+            post_kind = "unguarded"
+    code["post"] = post_kind
     # converged
     conv = None
     for st in post:
@@ -267,7 +287,8 @@ def _lean_code(code) -> str:
     bodies = ",\n     ".join("[" + ", ".join(f"⟨.{l}, .{e}⟩" for l, e in b) + "]" for b in code["bodies"])
     fl = lambda k: "true" if code[k] else "false"
     return ("{ bodies := [" + bodies + "],\n    restoreSol := " + fl("restoreSol") + ", restoreDist := " + fl("restoreDist") +
-            ", flagOnBreak := " + fl("flagOnBreak") + ", distInit := " + fl("distInit") + ", iterInit := " + fl("iterInit") + ", saveIsCopy := " + fl("saveIsCopy") + " }")
+            ", flagOnBreak := " + fl("flagOnBreak") + ", distInit := " + fl("distInit") + ", iterInit := " + fl("iterInit") + ", saveIsCopy := " + fl("saveIsCopy") +
+            ",\n    saveDistBeforeTry := " + fl("saveDistBeforeTry") + ", post := ." + code["post"] + " }")
 
 
 def emit(codes) -> str:
@@ -496,7 +517,19 @@ def run_solver(d, cfg, fault=None, num_iter=None):
         if w.anderson is not None:
             rec_aa = RecordingAnderson(w.anderson)
             w.anderson = rec_aa
-        if fault is not None:
+        n_ls = [0]
+        ls0 = w.linear_solve
+
+        def ls_count(*a, _l=ls0, **k):
+            n_ls[0] += 1
+            return _l(*a, **k)
+
+        w.linear_solve = ls_count
+        cap["n_linear_solves"] = n_ls
+        if fault is not None and fault[0] == "post":
+            # the solve AFTER the loop (Bregman's pressure post-processing): the `fault[1]`-th linear solve of the run
+            w.linear_solve = RaisingCallable(w.linear_solve, fault[1], "linear_solve (post-loop)")
+        elif fault is not None:
             inj = injection(cfg, fault[0], fault[1])
             if inj is None:
                 return None
@@ -613,13 +646,15 @@ def events_of(cfg, cap, fault, num_iter):
     ev = [("ok1" if criteria_met_at(cfg, hist, i, rc) else "ok0") + f":{br(i)}" for i in range(n_done)]
     broke = n_done > 0 and n_done - 1 > 1 and ev[-1].startswith("ok1")
     if not broke and n_done < num_iter:
-        if fault is not None and fault[1] == n_done:
+        if fault is not None and fault[0] != "post" and fault[1] == n_done:
             ev.append(fault_token(cfg, fault[0], fault[1]))
         elif cap["warned"]:
             # a failure that was not injected (e.g. singular weights); program point unknown, sound code treats all alike
             ev.append(fault_token(cfg, "linearSolve", n_done))
         elif isinstance(cap["distance"], float) and np.isnan(cap["distance"]):
             ev.append("nan")
+    if fault is not None and fault[0] == "post":
+        ev.append("post")
     return ev, n_done
 
 
@@ -645,6 +680,7 @@ def check_run(ctx, d, cfg, cap, fault, num_iter, label):
     rp = {"kind": "run", "cfg": dict(cfg), "fault": list(fault) if fault else None, "num_iter": num_iter}
     ev, n_done = events_of(cfg, cap, fault, num_iter)
     faulted = bool(ev) and ev[-1].startswith("f:")
+    post_injected = fault is not None and fault[0] == "post"
     converged = bool(info.get("converged"))
     dist = cap["distance"]
     # (1) mass balance of the returned flux
@@ -722,7 +758,9 @@ def check_run(ctx, d, cfg, cap, fault, num_iter, label):
         ctx.cov["runs_with_nonfinite_pressure"] = ctx.cov.get("runs_with_nonfinite_pressure", 0) + 1
         umax = float(np.abs(u).max()) if nf else 0.0
         vanishing_face = nf > 0 and bool(np.any(np.abs(u) <= 1e-12 * max(umax, 1e-300)))
-        if cfg.method != "newton" and cap.get("pp_failed") and finite_p.size == 0 and vanishing_face:
+        if post_injected and cap.get("pp_failed") and finite_p.size == 0:
+            pass  # specified behaviour (post_loop_failure_only_marks_pressure): NaN marker after an injected post-loop failure
+        elif cfg.method != "newton" and cap.get("pp_failed") and finite_p.size == 0 and vanishing_face:
             # the documented marker of a failed pressure post-processing (singular mobility-weighted system on a face with
             # vanishing flux): "pressure pinned at the reference cell" cannot hold -> reported, exact input class in the signature
             ctx.fail(f"C04:{cfg.method}.__call__:pressure-unavailable(nan):singular-postprocessing:{cfg.mobility}",
@@ -791,12 +829,16 @@ def explore(ctx, d, cfg, lines, impl):
             ctx.cov["solver_runs"] += 1
         return trunc[j]
 
-    faults = [None] + [(pt, j) for j in cfg.fault_at for pt in cfg.points]
+    faults = [None] + [(pt, j) for j in cfg.fault_at for pt in cfg.points] + ([("post", None)] if cfg.method != "newton" else [])
     clean_passes = None
+    clean_cap = None
     for fault in faults:
-        # inject only into passes the loop actually executes (Bregman solves once more after the loop; a failure there
-        # propagates as an exception, which is honest and not what the property quantifies over)
-        if fault is not None and (clean_passes is None or fault[1] >= clean_passes or injection(cfg, *fault) is None):
+        if fault is not None and fault[0] == "post":
+            if clean_cap is None:
+                continue
+            fault = ("post", clean_cap["n_linear_solves"][0] - 1)  # the last linear solve of the clean run is the one after the loop
+        # in-loop faults: only into passes the loop actually executes; the solve after the loop (Bregman) has its own fault ("post")
+        if fault is not None and fault[0] != "post" and (clean_passes is None or fault[1] >= clean_passes or injection(cfg, *fault) is None):
             continue
         label = f"{cfg.method} {tuple(cfg.shape)} {cfg.masses} {cfg.formulation}/{cfg.solver} {cfg.l1}/{cfg.mobility} aa={cfg.aa}{'/r' + str(cfg.aa_restart) if cfg.aa_restart else ''} fault={fault}"
         cap = run_solver(d, cfg, fault)
@@ -817,6 +859,7 @@ def explore(ctx, d, cfg, lines, impl):
         conv, nit, dcost, n_done, ev = check_run(ctx, d, cfg, cap, fault, N, label)
         if fault is None:
             clean_passes = n_done
+            clean_cap = cap
         seen = (fault[0] if fault else (ev[-1] if ev else "none"))
         ctx.cov["events_seen"][seen] = ctx.cov["events_seen"].get(seen, 0) + 1
         # which iterate is returned: the clean run truncated to the number of completed passes
@@ -825,14 +868,29 @@ def explore(ctx, d, cfg, lines, impl):
             if j > N:
                 continue
             t = truncated(j) if j != N or fault is not None else cap
-            if not isinstance(t, Raised) and "solution" in t and same_iterate(cap["solution"], t["solution"], cfg):
+            nfc = int(cap["w"].grid.num_faces)
+            cut = nfc if (fault is not None and fault[0] == "post") else None  # the pressure is the NaN marker then: compare fluxes
+            if not isinstance(t, Raised) and "solution" in t and same_iterate(cap["solution"][:cut], t["solution"][:cut], cfg):
                 sol_tag = j
                 break
         dist_tag = sol_tag if dcost else ("none" if cap["distance"] == 0 else "other")
         lines.append(f"loop {method} gen {N} {len(ev)} " + " ".join(ev))
+        evl = [e for e in ev if e != "post"]
+        wv, nfv = cap["w"], int(cap["w"].grid.num_faces)
+        pv = cap["solution"][nfv:nfv + int(wv.grid.num_cells)]
+        # the NaN marker of the post-processing; any other non-finite pressure is judged by the per-run oracle, not here
+        marker = cap.get("pp_failed") and not np.any(np.isfinite(pv))
+        ptag = "nan" if marker else (sol_tag if sol_tag is not None else "other")
         impl.append(f"{int(conv)} {nit if nit is not None else 'none'} {dist_tag if dist_tag is not None else 'other'} "
-                    f"{sol_tag if sol_tag is not None else 'other'} {int(bool(ev) and (ev[-1].startswith('f:') or ev[-1] == 'nan' or (ev[-1].startswith('ok1') and len(ev) - 1 > 1)))}")
-        if (fault is not None or cap["warned"]) and sol_tag != n_done:
+                    f"{sol_tag if sol_tag is not None else 'other'} {int(bool(evl) and (evl[-1].startswith('f:') or evl[-1] == 'nan' or (evl[-1].startswith('ok1') and len(evl) - 1 > 1)))} {ptag}")
+        if fault is not None and fault[0] == "post" and clean_cap is not None:
+            # a failure after the loop must leave distance, flux and status exactly as in the clean run
+            same = (cap["distance"] == clean_cap["distance"] and conv == bool(clean_cap["info"].get("converged"))
+                    and np.array_equal(cap["solution"][:nfv], clean_cap["solution"][:nfv]))
+            if not same:
+                ctx.fail(f"C04:{cfg.method}._solve:post-loop-failure-changes-result",
+                         f"a failure of the pressure post-processing after the loop changed distance / flux / status ({label})", rp)
+        if ((fault is not None and fault[0] != "post") or cap["warned"]) and sol_tag != n_done:
             ctx.fail(f"C04:{cfg.method}._solve:not-last-valid-iterate",
                      f"after a failure in pass {n_done} the returned solution is not the last valid iterate (matches iterate {sol_tag}; {label})", rp)
 
@@ -914,7 +972,7 @@ def loop_model_selfcheck(ctx, codes):
                         if i > 1 and e.startswith("ok1"):
                             conv, stopped = 1, 1
                             break
-                    expect.append(f"{conv} {it} {cur} {cur} {stopped}")
+                    expect.append(f"{conv} {it} {cur} {cur} {stopped} {cur}")
     ctx.correspond("loop-model (generated bodies, fault at every statement) vs independent scan", [" ".join(l.split()) for l in lines], expect)
 
 
@@ -1106,21 +1164,26 @@ def model_selfchecks(ctx, codes):
     for m in ("newton", "bregman"):
         c = codes[m]
         sound = all(c[k] for k in ("restoreSol", "restoreDist", "flagOnBreak", "distInit", "iterInit", "saveIsCopy")) and bool(c["bodies"])
-        eff = {"none": "-", "writeSol": "sol", "writeDist": "dist", "criteria": "crit"}
-        if sound:  # the body-order part of `sound` is evaluated by Lean; here only for well-ordered bodies
+        eff = {"none": "-", "writeSol": "sol", "writeDist": "dist", "criteria": "crit", "commitDist": "commit"}
+        if sound:  # the body-order / commit part of `sound` mirrored here
             def ok(b):
                 effs = [e for _, e in b]
                 if "writeSol" not in effs or "writeDist" not in effs:
                     return False
                 last_d = max(i for i, e in enumerate(effs) if e == "writeDist")
                 return all(e != "writeSol" for e in effs[last_d + 1:])
-            sound = all(ok(b) for b in c["bodies"])
+
+            def cm(b):
+                effs = [e for _, e in b]
+                return ("commitDist" not in effs) if c["saveDistBeforeTry"] else (bool(effs) and effs[-1] == "commitDist" and "commitDist" not in effs[:-1])
+            sound = all(ok(b) and cm(b) for b in c["bodies"])
         lines.append(f"points {m}")
         expect.append(f"sound={int(sound)} | " + " | ".join(" ".join(f"{l}/{eff[e]}" for l, e in b) for b in c["bodies"]))
     # the witnesses of the as-found code, through the driver (same statements as the theorems asFound_*)
-    for line, exp in (("loop newton asFound 5 1 f:0:linearSolve", "1 0 none 0 1"), ("loop bregman asFound 5 1 f:1:linearSolve", "1 0 none 0 1"),
-                      ("loop newton asFound 5 2 ok0 f:0:distance", "1 1 1 2 1"), ("loop newton asFound 0 0", "!UnboundLocalError none none 0 0"),
-                      ("loop bregman asFound 0 0", "0 0 none 0 0")):
+    for line, exp in (("loop newton asFound 5 1 f:0:linearSolve", "1 0 none 0 1 0"), ("loop bregman asFound 5 1 f:1:linearSolve", "1 0 none 0 1 0"),
+                      ("loop newton asFound 5 2 ok0 f:0:distance", "1 1 1 2 1 2"), ("loop newton asFound 0 0", "!UnboundLocalError none none 0 0 0"),
+                      ("loop bregman asFound 0 0", "0 0 none 0 0 0"), ("loop bregman asFound 3 1 post", "0 2 3 3 0 raise"),
+                      ("loop bregman gen 3 1 post", "0 2 3 3 0 nan")):
         lines.append(line)
         expect.append(exp)
     ctx.correspond("driver: generated program points / as-found witnesses", lines, expect)
@@ -1133,7 +1196,7 @@ def run(ctx):
     codes = {"newton": extract_code(W.WassersteinDistanceNewton), "bregman": extract_code(W.WassersteinDistanceBregman)}
     ctx.write_gen("SolveLoopGen", emit(codes))
     ctx.cov["generated_tables"] = {k: {"bodies": [[f"{l}/{e}" for l, e in b] for b in v["bodies"]], "tracked": v.get("tracked"),
-                                       "flags": {f: v[f] for f in ("restoreSol", "restoreDist", "flagOnBreak", "distInit", "iterInit", "saveIsCopy")},
+                                       "flags": {f: v[f] for f in ("restoreSol", "restoreDist", "flagOnBreak", "distInit", "iterInit", "saveIsCopy", "saveDistBeforeTry", "post")},
                                        "why_not_sound": v["why"]} for k, v in codes.items()}
     ctx.prove("C04")
     ctx.cov["solver_runs"] = 0
